@@ -6,6 +6,10 @@
     (433-441), pers_range.setter (455-463), _create_mesh (576-602), fit (604-644),
     _ensure_iterable (738-748) and the shape bookkeeping of transform/_transform (669-671, 913, 939).
 
+  `ensureIterable` below is the model of `_ensure_iterable` that C12 (and C18's `fit`) use; C04/C11 use
+  `Image.ensureIterable` (Model/Image.lean) and C18's `transform` is `Transformers.imagerTransform`;
+  `Lemmas/ImageModels.lean` proves that they agree.
+
   The state is `(b0,b1,p0,p1,ps,w,h,rx,ry)` = `_birth_range, _pers_range, _pixel_size, _width,
   _height, _resolution`.  `_bpnts/_ppnts` are recomputed by `_create_mesh` at the end of every
   mutator from exactly these fields and are never written anywhere else, so they are the derived
